@@ -345,6 +345,22 @@ def run_c17(tier, seed, replay):
     ga, da = common.mode_a("MC_Cli.tla", "MC_Cli.cfg", wd, workers=4)
     stats["states"] += ga
     stats["distinct"] += da
+    # unbounded: TLAPS proof of the safety properties of the control skeleton (spec/CliMachineProofs.tla); MC_Cli checks
+    # (RefInit, RefStep) that Cli.tla refines that skeleton
+    import shutil
+    pdir = os.path.join(wd, "tlaps-cli")
+    os.makedirs(pdir, exist_ok=True)
+    for fn in ("CliMachine.tla", "CliMachineProofs.tla"):
+        shutil.copy(os.path.join(common.SPEC, fn), pdir)
+    try:
+        prf = subprocess.run(["tlapm", "--threads", "4", "CliMachineProofs.tla"], cwd=pdir, capture_output=True, text=True, timeout=900)
+    except subprocess.TimeoutExpired:
+        raise ToolError("tlapm timed out on spec/CliMachineProofs.tla")
+    mm = re.search(r"All (\d+) obligations? proved", prf.stdout + prf.stderr)
+    if not mm:
+        raise ToolError("tlapm did not prove spec/CliMachineProofs.tla:\n" + (prf.stdout + prf.stderr)[-1500:])
+    proof_cli = {"module": "spec/CliMachineProofs.tla", "obligations": int(mm.group(1)), "checker_cmd": "tlapm --threads 4 spec/CliMachineProofs.tla",
+                 "theorem": "Spec => [](InOrder /\\ FailQuiet /\\ FailKeepsOld /\\ Replaced /\\ Complete) for spec/CliMachine.tla, any number of formulae; refinement Cli.tla -> CliMachine.tla checked by TLC in MC_Cli"}
     byid = {e["id"]: e for e in events}
     import runner
     import collections
@@ -352,7 +368,8 @@ def run_c17(tier, seed, replay):
     samples = [{"args": e["args"], "scenario": e["scenario"], "formula_file": e["raw_lines"], "stdout_events": e["events"][:12], "exit": e["exit"]} for e in events[:3]]
     return runner.report("C17", tier, seed, t0, [{"id": e["id"], "kinds": ["c17"], "text": " ".join(e["args"])} for e in events], verdicts, ["c17"], stats,
                          {"samples": samples, "scenarios": {"%s/%s" % k: v for k, v in hist.items()},
-                          "mode_A_cli": {"module": "spec/MC_Cli.tla", "states": da, "invariants": "InOrder, FailQuiet, FailKeepsOld, Replaced, Complete; liveness Terminates"},
+                          "mode_A_cli": {"module": "spec/MC_Cli.tla", "states": da, "invariants": "InOrder, FailQuiet, FailKeepsOld, Replaced, Complete; liveness Terminates; refinement of spec/CliMachine.tla (RefInit, RefStep)"},
+                          "proof_cli_skeleton": proof_cli,
                           "rule": "seeded runs of the hctl-model-checker binary built from the working tree: model as aeon / bnet / sbml, formula files with comment / blank / indented lines, every print option, optional -o and -e archives, and failure scenarios; stdout lines consumed path-wise by TLC against the state machine of spec/Cli.tla (spec/Trace_Cli.tla); a run without an accepting state is rejected"},
                          ASSUME_CLI, lambda it, failed: {"property": "C17", "failed_judgements": failed, "recorded": byid[it["id"]],
                                                          "runs": [r for r in runs if r["id"] == it["id"]],
